@@ -119,6 +119,9 @@ func TestWorker(t *testing.T) {
 	enumerate := os.Getenv("VERIF_ENUM") == "1"
 	digest := os.Getenv("VERIF_DIGEST") == "1"
 	start := time.Now()
+	if outPath != "" {
+		go watchdog(outPath, envInt("VERIF_WATCHDOG_S", 60))
+	}
 	out := WorkerOut{Prop: prop, Probes: map[string]int{}, Fired: map[string]int{}}
 	states := map[uint64]struct{}{}
 	scheds := map[uint64]struct{}{}
@@ -340,4 +343,71 @@ func TestMeta(t *testing.T) {
 		fmt.Fprintln(os.Stderr, err)
 		os.Exit(2)
 	}
+}
+
+// watchdog runs outside any bubble. When the kernel has made no step for limit
+// seconds it samples all goroutine stacks twice, five seconds apart. If both
+// samples show a goroutine running (not blocked) in repository code, that is a
+// spin: the samples are written to <out>.spin and the process exits with status 3
+// (the driver re-runs the seed in a fresh process to confirm). Otherwise the
+// stall is simulator trouble: <out>.stall, exit status 4.
+func watchdog(outPath string, limit int) {
+	last := kernel.Progress.Load()
+	stale := 0
+	for {
+		time.Sleep(time.Second)
+		cur := kernel.Progress.Load()
+		if cur != last {
+			last, stale = cur, 0
+			continue
+		}
+		stale++
+		if stale < limit {
+			continue
+		}
+		s1 := spinning(allStacks())
+		time.Sleep(5 * time.Second)
+		if kernel.Progress.Load() != last {
+			stale = 0
+			continue
+		}
+		dump := allStacks()
+		s2 := spinning(dump)
+		for fn := range s1 {
+			if s2[fn] {
+				os.WriteFile(outPath+".spin", []byte(fn+"\n"+dump), 0o644)
+				os.Exit(3)
+			}
+		}
+		os.WriteFile(outPath+".stall", []byte(dump), 0o644)
+		os.Exit(4)
+	}
+}
+
+func allStacks() string {
+	buf := make([]byte, 8<<20)
+	return string(buf[:runtime.Stack(buf, true)])
+}
+
+// spinning returns the innermost repository functions of goroutines that are
+// running or runnable (i.e. not blocked).
+func spinning(dump string) map[string]bool {
+	out := map[string]bool{}
+	for _, g := range strings.Split(dump, "\n\n") {
+		head, _, _ := strings.Cut(g, "\n")
+		if !strings.Contains(head, "[running") && !strings.Contains(head, "[runnable") {
+			continue
+		}
+		for _, l := range strings.Split(g, "\n") {
+			if strings.HasPrefix(l, "github.com/netflix/rend/") {
+				fn := l
+				if i := strings.LastIndex(fn, "("); i > 0 {
+					fn = fn[:i]
+				}
+				out[fn] = true
+				break
+			}
+		}
+	}
+	return out
 }
